@@ -70,18 +70,18 @@ type ReplayFile struct {
 
 // Run is the per-process state.
 type Run struct {
-	ID      string
-	Tier    string
-	Seed    uint64
-	Shard   int
-	Shards  int
-	OutDir  string
-	replay  *ReplayFile
-	start   time.Time
-	mu      sync.Mutex
-	res     Result
-	hashes  map[uint64]struct{}
-	perName map[string]int
+	ID        string
+	Tier      string
+	Seed      uint64
+	Shard     int
+	Shards    int
+	OutDir    string
+	replay    *ReplayFile
+	start     time.Time
+	mu        sync.Mutex
+	res       Result
+	hashes    map[uint64]struct{}
+	perName   map[string]int
 	replayHit bool
 }
 
@@ -226,11 +226,19 @@ func abbreviate(c any) any {
 	return v
 }
 
-func (r *Run) Rule(s string)        { r.res.Rule = s }
-func (r *Run) Assume(s string)      { r.mu.Lock(); r.res.Assumptions = append(r.res.Assumptions, s); r.mu.Unlock() }
-func (r *Run) Exhaustive(s string)  { r.mu.Lock(); r.res.Exhaustive = append(r.res.Exhaustive, s); r.mu.Unlock() }
+func (r *Run) Rule(s string) { r.res.Rule = s }
+func (r *Run) Assume(s string) {
+	r.mu.Lock()
+	r.res.Assumptions = append(r.res.Assumptions, s)
+	r.mu.Unlock()
+}
+func (r *Run) Exhaustive(s string) {
+	r.mu.Lock()
+	r.res.Exhaustive = append(r.res.Exhaustive, s)
+	r.mu.Unlock()
+}
 func (r *Run) Extra(k string, v any) { r.mu.Lock(); r.res.Extra[k] = v; r.mu.Unlock() }
-func (r *Run) Known(s string)       { r.mu.Lock(); r.res.Known = append(r.res.Known, s); r.mu.Unlock() }
+func (r *Run) Known(s string)        { r.mu.Lock(); r.res.Known = append(r.res.Known, s); r.mu.Unlock() }
 
 // Inconclusive records a reason why the run cannot be taken as green (a
 // harness problem, never a violation).
